@@ -138,3 +138,134 @@ Proof.
     + right. left. auto.
   - left. auto.
 Qed.
+
+(* ------------------------------------------------------------------ closedness *)
+(** node (S d, off): if set, then its parent is set, or its sibling has a key and is not set *)
+Definition node_ok (h : nat) (n : N) (sigs : list (option bsig)) (d : nat) (off : N) : Prop :=
+  set_at sigs (nidx h (S d) off) = true ->
+  set_at sigs (nidx h d (off / 2)) = true \/
+  (keyed h n (S d) (sib off) = true /\ set_at sigs (nidx h (S d) (sib off)) = false).
+
+(** all nodes are ok, except possibly the children of node [ex] *)
+Definition closed_except (h : nat) (n : N) (sigs : list (option bsig)) (ex : option (nat * N)) : Prop :=
+  forall d off, (S d <= h)%nat -> off < p2 (S d) ->
+    match ex with Some (de, oe) => ~ (d = de /\ off / 2 = oe) | None => True end ->
+    node_ok h n sigs d off.
+
+Definition closed (h : nat) (t : tree) : Prop := closed_except h (t_n t) (t_sigs t) None.
+
+Lemma set_upd_iff : forall sigs idx sg x, idx < lenN sigs ->
+  (set_at (updN sigs idx (Some sg)) x = true <-> set_at sigs x = true \/ x = idx).
+Proof.
+  intros. rewrite set_at_upd by assumption. rewrite orb_true_iff, N.eqb_eq. tauto.
+Qed.
+
+Lemma set_upd_false : forall sigs idx sg x, idx < lenN sigs -> x <> idx ->
+  set_at (updN sigs idx (Some sg)) x = set_at sigs x.
+Proof.
+  intros. rewrite set_at_upd by assumption. replace (x =? idx) with false by (symmetry; apply N.eqb_neq; assumption).
+  apply orb_false_r.
+Qed.
+
+Lemma sib_sib : forall off, sib (sib off) = off.
+Proof.
+  intro off. destruct (sib_cases off) as [q [(A & B & C)|(A & B & C)]]; rewrite B; unfold sib.
+  - replace (N.even (2 * q + 1)) with false by (symmetry; rewrite N.even_add, N.even_mul; reflexivity). lia.
+  - replace (N.even (2 * q)) with true by (symmetry; rewrite N.even_mul; reflexivity). lia.
+Qed.
+
+Lemma classic_pair : forall (d1 d : nat) (o off : N), (d1 = d /\ o / 2 = off / 2) \/ ~ (d1 = d /\ o / 2 = off / 2).
+Proof.
+  intros. destruct (Nat.eq_dec d1 d); [|right; tauto]. destruct (N.eq_dec (o / 2) (off / 2)); [left|right]; tauto.
+Qed.
+
+(** storing at node (dd, o0): which nodes stay / become ok *)
+Lemma node_ok_upd : forall h n sigs dd o0 sg d1 o,
+  lenN sigs = 2 * p2 h - 1 -> (dd <= h)%nat -> o0 < p2 dd -> (S d1 <= h)%nat -> o < p2 (S d1) ->
+  let sigs2 := updN sigs (nidx h dd o0) (Some sg) in
+  ((d1 = dd /\ o / 2 = o0) -> node_ok h n sigs2 d1 o) /\
+  (~ (S d1 = dd /\ o = o0) -> ~ (S d1 = dd /\ o = sib o0) -> node_ok h n sigs d1 o -> node_ok h n sigs2 d1 o).
+Proof.
+  intros h n sigs dd o0 sg d1 o HL Hdd Ho0 Hd1 Ho sigs2.
+  assert (Hlt : nidx h dd o0 < lenN sigs) by (rewrite HL; apply lstart_bound; assumption).
+  split.
+  - intros [-> <-] _. left. unfold sigs2. apply set_upd_iff; [assumption|]. right. reflexivity.
+  - intros Hne Hns Hok Hset. unfold sigs2 in *. apply set_upd_iff in Hset; [|assumption].
+    destruct Hset as [Hset|Heq].
+    2:{ exfalso. unfold nidx in Heq.
+        destruct (node_unique h (S d1) o dd o0 Hd1 Hdd Ho Ho0 Heq) as [A B]. apply Hne. auto. }
+    destruct (Hok Hset) as [Hp|[Hk Hs]].
+    + left. apply set_upd_iff; [assumption|]. left. exact Hp.
+    + right. split; [assumption|]. rewrite set_upd_false; [assumption|assumption|].
+      intro Heq. unfold nidx in Heq. pose proof (sib_lt d1 o Ho) as Hsl.
+      destruct (node_unique h (S d1) (sib o) dd o0 Hd1 Hdd Hsl Ho0 Heq) as [A B].
+      apply Hns. split; [assumption|]. subst o0. now rewrite sib_sib.
+Qed.
+
+Lemma closed_except_weaken : forall h n sigs ex, closed_except h n sigs None -> closed_except h n sigs ex.
+Proof. intros h n sigs ex H d off A B _. apply H; auto. Qed.
+
+(** the AGAIN loop re-establishes closedness *)
+Lemma tree_add_closed : forall h d fuel t off sig added t',
+  wf_tree h t -> (d <= h)%nat -> off < p2 d ->
+  closed_except h (t_n t) (t_sigs t) (Some (d, off)) ->
+  tree_add fuel t (nidx h d off) sig added = Ok t' -> closed h t' /\ wf_tree h t' /\ t_n t' = t_n t.
+Proof.
+  intros h. induction d; intros fuel t off sig added t' Hwf Hd Ho Hce E.
+  - destruct fuel; [discriminate|]. cbn [p2] in Ho. assert (off = 0) by lia. subst off.
+    destruct (tree_add_root h fuel t sig added Hwf) as [b' Er]. rewrite Er in E. inversion E; subst t'. clear E.
+    pose proof (wf_sigs _ _ Hwf) as HL.
+    split; [|split; [|reflexivity]].
+    + intros d1 o Hd1 Ho1 _. cbn [t_n t_sigs].
+      destruct (node_ok_upd h (t_n t) (t_sigs t) O 0 sig d1 o HL ltac:(lia) ltac:(cbn; lia) Hd1 Ho1) as [A B].
+      destruct (Nat.eq_dec d1 O) as [->|Hne].
+      * apply A. split; [reflexivity|]. cbn [p2] in Ho1. apply N.lt_1_r. apply N.div_lt_upper_bound; lia.
+      * apply B; try lia. apply Hce; auto. lia.
+    + destruct Hwf. constructor; cbn [t_n t_sigs t_keys]; auto. now rewrite lenN_updN.
+  - destruct fuel; [discriminate|].
+    destruct (tree_add_step h d fuel t off sig added Hwf Hd Ho) as (bits2 & Hwf2 & Hcases). cbv zeta in *.
+    set (t2 := mk_tree (t_keys t) (updN (t_sigs t) (nidx h (S d) off) (Some sig)) bits2 (t_n t)) in *.
+    pose proof (wf_sigs _ _ Hwf) as HL.
+    (* nodes other than idx and its sibling *)
+    assert (Hother : forall d1 o, (S d1 <= h)%nat -> o < p2 (S d1) -> ~ (d1 = d /\ o / 2 = off / 2) ->
+                       node_ok h (t_n t) (t_sigs t2) d1 o).
+    { intros d1 o Hd1 Ho1 Hnc. cbn [t2 t_sigs].
+      destruct (node_ok_upd h (t_n t) (t_sigs t) (S d) off sig d1 o HL Hd Ho Hd1 Ho1) as [A B].
+      destruct (Nat.eq_dec d1 (S d)) as [->|Hne1].
+      - destruct (N.eq_dec (o / 2) off) as [Eo|Eo]; [apply A; auto|].
+        apply B; try lia. apply Hce; auto. intros [_ C]. contradiction.
+      - apply B.
+        + intros [C1 C2]. apply Hnc. split; [lia|]. now rewrite C2.
+        + intros [C1 C2]. apply Hnc. split; [lia|]. rewrite C2. apply sib_half.
+        + apply Hce; auto. intros [C _]. lia. }
+    assert (Hret : (set_at (t_sigs t) (nidx h d (off / 2)) = true \/
+                    (keyed h (t_n t) (S d) (sib off) = true /\ set_at (t_sigs t) (nidx h (S d) (sib off)) = false)) ->
+                   closed h t2).
+    { intros Hcond d1 o Hd1 Ho1 _. cbn [t2 t_n].
+      destruct (classic_pair d1 d o off) as [Hc|Hc]; [|apply Hother; assumption].
+      destruct Hc as [-> Hh]. destruct (same_half _ _ Hh) as [->| ->].
+      - (* idx itself *)
+        intros _. cbn [t2 t_sigs].
+        assert (Hlt : nidx h (S d) off < lenN (t_sigs t)) by (rewrite HL; apply lstart_bound; assumption).
+        destruct Hcond as [Hp|[Hk Hs]].
+        + left. apply set_upd_iff; [assumption|]. auto.
+        + right. split; [assumption|]. rewrite set_upd_false; [assumption|assumption|].
+          intro Heq. unfold nidx in Heq. pose proof (sib_ne off). lia.
+      - (* the sibling of idx *)
+        intro Hset. cbn [t2 t_sigs] in *.
+        assert (Hlt : nidx h (S d) off < lenN (t_sigs t)) by (rewrite HL; apply lstart_bound; assumption).
+        rewrite set_upd_false in Hset; [|assumption|unfold nidx; pose proof (sib_ne off); lia].
+        destruct Hcond as [Hp|[Hk Hs]]; [|congruence].
+        left. rewrite sib_half. apply set_upd_iff; [assumption|]. auto. }
+    assert (Hcont : closed_except h (t_n t2) (t_sigs t2) (Some (d, off / 2))).
+    { intros d1 o Hd1 Ho1 Hnc. apply Hother; assumption. }
+    assert (Hqlt : off / 2 < p2 d) by (apply half_lt; assumption).
+    destruct Hcases as [(Hp & Er)|[(Hp & Hk & Er)|[(Hp & Hk & Hs & Er)|(Hp & Hk & Hs & sig' & Er)]]];
+      rewrite Er in E.
+    + inversion E; subst t'. split; [apply Hret; auto|]. split; [assumption|reflexivity].
+    + destruct (IHd fuel t2 (off / 2) sig true t' Hwf2 ltac:(lia) Hqlt Hcont E) as (A & B & C).
+      split; [assumption|]. split; [assumption|]. rewrite C. reflexivity.
+    + inversion E; subst t'. split; [apply Hret; auto|]. split; [assumption|reflexivity].
+    + destruct (IHd fuel t2 (off / 2) sig' true t' Hwf2 ltac:(lia) Hqlt Hcont E) as (A & B & C).
+      split; [assumption|]. split; [assumption|]. rewrite C. reflexivity.
+Qed.
